@@ -160,6 +160,7 @@ type provInst struct {
 	cors     *cors.Options
 	iss      map[string]string // issuer per probe request right after construction
 	other    map[string]string // further behaviour right after construction (see extraBehaviour)
+	other0   map[string]string // the same, never updated (provider 0 is what later providers are compared with)
 	disc     string            // discovery document right after construction
 	routes   map[string]int    // status of a GET on every path of the probe universe right after construction
 	tok      *tokSet
@@ -360,6 +361,7 @@ func (e *orderEnv) newProvider(s Step) (*provInst, error) {
 	e.provs = append(e.provs, p)
 	p.disc, p.routes = e.behaviour(p, true)
 	p.iss, p.other = e.extraBehaviour(p, true)
+	p.other0 = p.other
 	return p, nil
 }
 
@@ -535,6 +537,10 @@ func (e *orderEnv) judge(si int, s Step, created *provInst, last bool) {
 		if m := e.bornCheck(created.spec, created.iss, hostOf(created.issuer)); m != "" {
 			e.res.Label("behaviour-changed:new-provider-issuer")
 			add("C20:issuer-derivation-not-by-own-options:"+s.K, fmt.Sprintf("provider %d built with %s, after %d issuer functions and %d providers: %s", created.idx, created.spec, len(e.issuers), created.idx, m))
+		}
+		if m := e.bornLike(created, s, epDirty); m != "" {
+			e.res.Label("behaviour-changed:new-provider-not-like-first")
+			add("C20:new-provider-differs-from-first-built-with-same-options:"+created.router, fmt.Sprintf("provider %d (%s), built after %d providers: %s", created.idx, describeStep(s), created.idx, m))
 		}
 	}
 	// client-side instances tell the same about themselves as right after their construction
@@ -1064,6 +1070,7 @@ func runOrder(c Case) *vkit.Result {
 
 	instances, calls, customProv := 1, 0, 0
 	issKinds := map[string]bool{}
+	provSteps, customCORS := 0, false
 	var kinds []string
 	for si, s := range c.Steps {
 		known := false
@@ -1089,6 +1096,11 @@ func runOrder(c Case) *vkit.Result {
 			}
 			if s.K == "prov" {
 				res.Label(fmt.Sprintf("provider-cors:%d", s.CORS), fmt.Sprintf("provider-ctor:%d", s.Ctor))
+				provSteps++
+				if s.CORS == 0 && s.Router != "legacy" && customCORS {
+					res.Label("has:default-cors-provider-after-custom-cors-provider")
+				}
+				customCORS = customCORS || s.CORS == 1
 			}
 		default:
 			calls++
@@ -1105,7 +1117,17 @@ func runOrder(c Case) *vkit.Result {
 				res.Fail("C20:instance-misbehaves-after-others:"+s.K, "step %d (%s) failed although no earlier step had been seen to change shared state: %s", si, describeStep(s), problem)
 			}
 		}
-		e.judge(si, s, created, si == len(c.Steps)-1)
+		e.judge(si, s, created, false)
+	}
+	// closing steps of every case: once more the instances with default options that were built before anything else
+	// (references, provider 0) - whatever the steps did, what is built now behaves like what was built then
+	closing := []Step{{K: "issuer_fn", Iss: "fwd"}, {K: "issuer_fn", Iss: "host"}, {K: "prov", Router: "provider"}}
+	for k, s := range closing {
+		created, problem, _ := e.doStep(s)
+		if problem != "" && !e.changedBefore("op.DefaultEndpoints") {
+			res.Fail("C20:instance-misbehaves-after-others:closing-"+s.K, "closing step (%s) failed although no step had been seen to change shared state: %s", describeStep(s), problem)
+		}
+		e.judge(len(c.Steps)+k, s, created, k == len(closing)-1)
 	}
 	for _, p := range e.rt.takePanics() {
 		res.Fail("C20:panic@"+p[strings.LastIndex(p, "@")+1:], "handler panicked: %s", p)
@@ -1117,6 +1139,7 @@ func runOrder(c Case) *vkit.Result {
 	sort.Strings(cs)
 	res.NonTrivial = instances >= 2 || calls >= 1
 	res.Key = "order|" + strings.Join(kinds, ">")
+	res.Label(fmt.Sprintf("provider-steps:%d", min(provSteps, 3)))
 	if issKinds["fwd"] && issKinds["fwdc"] {
 		res.Label("has:forwarded-default-and-custom-headers")
 	}
